@@ -151,7 +151,7 @@ pub fn record(args: &[String]) -> i32 {
         let mut wk = keys.clone();
         if !w.meta["extra_lex"].as_array().unwrap().is_empty() {
             // the kana-spelled user dictionary of tok::fixture_worlds
-            wk.push(json!([{"key": cps("とうきょうと"), "lid": 6}, {"key": cps("きょうとふ"), "lid": 6}, {"key": cps("アイウアイ"), "lid": 7}]));
+            wk.push(tok::kana_user_keys());
         }
         tr.emit(json!({"ev": "world", "run": run + 1, "name": w.name, "conn": conn, "lex": wl, "dicts": wk}));
         let mut t = StatefulTokenizer::new(w.dict.clone(), Mode::C);
